@@ -25,13 +25,13 @@ func (c17) Cases(tier string) int {
 }
 
 var c17KeywordNames = []string{"iffy", "settings", "jumpy", "calling", "declared", "localize", "enumerate", "casey", "stopper", "waiting", "ifx", "setup", "callback", "jumps", "elseif_like_but_not"[:0] + "elifx", "enums", "cases", "locals", "stops", "waits"}
-var c17PlainNames = []string{"act", "Emote", "play_sound", "fx2", "déplacer", "移動", "ход", "a", "x_y_z", "Camera"}
+var c17PlainNames = []string{"déjà", "Ångström", "act", "Emote", "play_sound", "fx2", "déplacer", "移動", "ход", "a", "x_y_z", "Camera"}
 
 // names the lexer reads as keywords although they only begin with one: known finding K3
 var c17K3Names = []string{"elsewhere", "elseifx", "endiffy", "endenumx", "else_", "endifs", "endenumerate", "elsey"}
 
 var c17HostileWords = []string{"true", "false", "TRUE", "True", "False", "-1", "-1.5", "007", "+1", "1e3", ".5", "5.", "0x10", "1_000", "nan", "NaN", "Nan", "inf", "Inf", "Infinity", "-inf", "-", "--1", "a:b", "1.2.3", "1-", "1,5", "0", "-0", "3.14159", "00.50", "12abc", "e", "0b1", "0o7", "1e", "١٢", "t", "f", "T", "F", "yes", "no", "on", "off", "null", "1e-3", "1E3", "0.", "-.5", "+.5", "1/2", "∞", "-1e3", "0e0"}
-var c17PlainWords = []string{"left", "Mae", "dérive", "日本", "x_1", "#hash", "a}b", "\"q\"", "'s'", "$var", "a/b", "a//b", "100%", "(p)", "[m]", "é"}
+var c17PlainWords = []string{"voilà", "Åse", "😅", "naïveté", "ａｂ", "left", "Mae", "dérive", "日本", "x_1", "#hash", "a}b", "\"q\"", "'s'", "$var", "a/b", "a//b", "100%", "(p)", "[m]", "é"}
 
 func (c17) Thresholds(tier string) map[string]int64 {
 	th := map[string]int64{
